@@ -120,6 +120,19 @@ func C02Scenarios() []*Plan {
 	p.Faults.MaxReorgs = 1
 	p.Faults.MaxReorgDepth = 2
 	add(p)
+
+	// the replaced tip was recorded one block at a time (following the head)
+	// and the new branch is longer: the step that unwinds it records a
+	// position number no stale row has, so nothing but the transaction
+	// boundaries keeps old and new rows apart
+	p = c02Base("reorg depth 1 after following the head, batch 4, longer branch", 4, 1)
+	p.Decls = []*model.Decl{logDecl("ig0", 3, true)}
+	p.Content.Events = []EventSpec{{Event: transferEvent()}}
+	p.ScriptChain = []ScriptedChain{{AtPos: 8, Src: "s0", Action: "grow", N: 1}, {AtPos: 9, Src: "s0", Action: "reorg", Depth: 1, NewLen: 3}}
+	p.Faults.MaxReorgs = 1
+	p.Faults.MaxReorgDepth = 1
+	p.Faults.MaxGrow = 1
+	add(p)
 	return out
 }
 
